@@ -37,7 +37,8 @@ def gen_case(rng: random.Random, tier: str) -> dict:
                 nd["fallback"] = rng.choice(nd["targets"])
                 nd["decide"]["choices"] = list(nd["decide"]["choices"]) + [None]
     inp = gen.program_inputs(rng, g)
-    return {"graph": g, "inputs": inp, "async": [gen.gen_async_cfg(rng) for _ in range(2)], "max_iterations": rng.choice([None, 6, 12]) if g["seeds"] else None}
+    return {"graph": g, "inputs": inp, "async": [gen.gen_async_cfg(rng) for _ in range(2)], "max_iterations": rng.choice([None, 6, 12]) if g["seeds"] else None,
+            "api": {"decorators": rng.random() < 0.35, "explicit_edges": rng.random() < 0.3, "wrap_async": False}}
 
 
 # ------------------------------------------------------------------ monitor
@@ -230,7 +231,7 @@ def run_case(doc: dict) -> dict:
     plans = [("sync", None)] + [("async", c) for c in doc["async"]]
     try:
         for i, (mode, cfg) in enumerate(plans):
-            w = run_world(g, values, mode=mode, cfg=cfg, run_kwargs=dict(kw))
+            w = run_world(gen.with_api(g, doc.get("api")), values, mode=mode, cfg=cfg, run_kwargs=dict(kw))
             rts.append(w["rt"])
             res["runs"] += 1
             sim_stats(res, w["out"])
